@@ -85,6 +85,7 @@ func (c *mfClient) Tx() broadcaster.Client    { return c.tx }
 type mfVersion struct {
 	hash []byte
 	from int // step from which it is the on-chain version
+	m    manifest.Manifest
 }
 
 type mfSubmit struct {
@@ -284,6 +285,10 @@ func runC20(r *core.Run) *core.Violation {
 	x.did = dtypes.DeploymentID{Owner: tenant.String(), DSeq: uint64([]int{1, 12, 256}[r.Choose(3, "knob.dseq")])}
 	x.faults = r.Weighted([]int{3, 3, 2}, "knob.faults")
 	steps := 10 + r.Choose(30, "knob.steps")
+	if r.Bool(50, "knob.fetch-ignores-cancel") {
+		// the chain query does not notice the cancellation of its context: it returns when answered
+		x.s.NoCancel = map[string]bool{"Query.Deployment": true}
+	}
 	ng := 1 + r.Choose(2, "knob.groups")
 	for gi := 0; gi < ng; gi++ {
 		gs := dtypes.GroupSpec{Name: fmt.Sprintf("grp%d", gi)}
@@ -301,7 +306,7 @@ func runC20(r *core.Run) *core.Violation {
 		x.groups = append(x.groups, dtypes.Group{GroupID: dtypes.MakeGroupID(x.did, uint32(gi+1)), State: dtypes.GroupOpen, GroupSpec: gs})
 	}
 	x.curManifest = x.buildManifest(0)
-	x.versions = []mfVersion{{hash: canonicalHash(x.curManifest), from: 0}}
+	x.versions = []mfVersion{{hash: canonicalHash(x.curManifest), from: 0, m: x.curManifest}}
 	if v := x.hashProperties(x.curManifest); v != nil {
 		return v
 	}
@@ -313,6 +318,19 @@ func runC20(r *core.Run) *core.Violation {
 		if c.Method == "Query.Deployment" {
 			x.fetchOK = true
 			cur := x.versions[len(x.versions)-1].hash
+			// the node may have served the query any time between its issue and now: sometimes the
+			// answer is the state as of the issue (an update that happened meanwhile is not in it)
+			if r.Bool(40, "fetch.served-at-issue") {
+				for i := len(x.versions) - 1; i >= 0; i-- {
+					if x.versions[i].from <= c.Start {
+						if i != len(x.versions)-1 {
+							r.Count("probe:fetch-answer-older-than-latest-update")
+						}
+						cur = x.versions[i].hash
+						break
+					}
+				}
+			}
 			st := dtypes.DeploymentActive
 			return &dtypes.QueryDeploymentResponse{Deployment: dtypes.Deployment{DeploymentID: x.did, State: st, Version: append([]byte{}, cur...)}, Groups: x.groups}, nil
 		}
@@ -491,6 +509,12 @@ func (x *c20) submit(kind string) {
 			// another valid arrangement of the same groups has another hash: only valid when it is the on-chain one
 			m = cloneManifest(x.curManifest)
 		}
+	case "previous-version":
+		// the manifest of the version that was on chain before the last update
+		if len(x.versions) >= 2 {
+			m = cloneManifest(x.versions[len(x.versions)-2].m)
+			r.Count("probe:previous-version-submitted")
+		}
 	case "stale-version":
 		m[0].Services[0].Image += "-old"
 	case "bad-resources":
@@ -571,7 +595,7 @@ func (x *c20) step() {
 		}
 	}
 	if len(x.submits) < 8 && !x.busy {
-		kinds := []string{"valid", "valid", "valid", "stale-version", "bad-resources", "bad-count", "bad-endpoints", "extra-service", "empty"}
+		kinds := []string{"valid", "valid", "valid", "previous-version", "stale-version", "bad-resources", "bad-count", "bad-endpoints", "extra-service", "empty"}
 		st = append(st, stim{9, func() {
 			k := kinds[r.Choose(len(kinds), "sub.kind")]
 			if fetching {
@@ -629,7 +653,7 @@ func (x *c20) step() {
 			// the tenant updates the deployment: a new manifest becomes the on-chain version
 			nm := x.buildManifest(len(x.versions))
 			x.curManifest = nm
-			x.versions = append(x.versions, mfVersion{hash: canonicalHash(nm), from: x.s.Step})
+			x.versions = append(x.versions, mfVersion{hash: canonicalHash(nm), from: x.s.Step, m: nm})
 			if fetching {
 				r.Count("probe:version-update-while-fetch-in-flight")
 			}
@@ -639,7 +663,14 @@ func (x *c20) step() {
 			r.Logf("step %d: EventDeploymentUpdated v%d", x.s.Step, len(x.versions)-1)
 			r.Abstract("update")
 		}})
-		st = append(st, stim{1, func() {
+		wClose := 1
+		if fetching {
+			wClose = 4
+		}
+		st = append(st, stim{wClose, func() {
+			if fetching {
+				r.Count("probe:deployment-closed-while-fetch-in-flight")
+			}
 			x.publish(dtypes.NewEventDeploymentClosed(x.did))
 			x.closed = true
 			x.leasesHeld = map[string]bool{}
